@@ -111,6 +111,29 @@ func c08Spec(rng *rand.Rand, i int) (*SessSpec, string) {
 		}
 		sp.Failover[vb] = fl
 	}
+	if i%12 == 3 {
+		// a second rollback to the same R answers the re-open after a transient end, while the position has not moved past
+		// F (nothing is acknowledged): the events in (R, F] are streamed a second time and must not be shown again
+		vb := 0
+		sp.PNow, sp.PDefer = 0, 1
+		sp.RollbackAlso = map[int]int{vb: 3}
+		sp.Steps = append(sp.Steps, Step{Op: "barrier"}, Step{Op: "end", VB: vb, St: transientStatus[rng.Intn(4)]}, Step{Op: "waitreopen", VB: vb, N: 4})
+		kind = "rollback-twice"
+	} else if i%12 == 9 {
+		// the vBucket fails over once more between the failover-log request and the re-request of the rollback handling:
+		// the stream is opened on the newest branch, which the log fetched before does not know
+		for vb := 0; vb < nrb; vb++ {
+			if sp.FailoverOnLogFetch == nil {
+				sp.FailoverOnLogFetch = map[int]int{}
+			}
+			sp.FailoverOnLogFetch[vb] = 1 + rng.Intn(9)
+		}
+		kind = "branch-in-flight"
+	} else if i%12 == 7 {
+		// finite mode: the re-request keeps the end of the original request
+		sp.Mode = "finite"
+		kind = "rollback-finite"
+	}
 	if i%6 == 5 {
 		// the rollback answers a re-open after a transient end instead of the first open
 		vb := 0
